@@ -322,3 +322,62 @@ theorem qstmts_all (ss : List Stmt) : QStmts ss :=
     (fun s ss hp hq => step_cons s ss hp hq) ss
 
 end LyModel.YangStr
+
+namespace LyModel.YangStr
+open LyModel.Utf8 LyModel.Generated
+
+/-! ### the fuel the parser is started with (input length + 1) suffices -/
+
+theorem afterKw_length_ge (fmt : Bool) (l : Nat) (kw : Bytes) (arg : Option Bytes) (flags : Nat) (kids : List Stmt) :
+    (if kids.isEmpty then 2 else 5 + (printStmts fmt (incLevel l) kids).length) ≤ (afterKw fmt l (.mk kw arg flags kids) []).length := by
+  unfold afterKw
+  cases hk : kids.isEmpty <;> simp [hk] <;> omega
+
+theorem need_le_aux (s : Stmt) : ∀ (fmt : Bool) (l : Nat), WfStmt s → need s + 1 ≤ (printStmt fmt l s).length :=
+  Stmt.rec (motive_1 := fun s => ∀ (fmt : Bool) (l : Nat), WfStmt s → need s + 1 ≤ (printStmt fmt l s).length)
+    (motive_2 := fun ss => ∀ (fmt : Bool) (l : Nat), WfStmts ss → needL ss ≤ (printStmts fmt l ss).length + 1)
+    (fun kw arg flags kids ih fmt l hwf => by
+      obtain ⟨hkw, _, hwk⟩ : KwOk kw ∧ ArgOk kw arg flags kids.isEmpty ∧ WfStmts kids := by simpa [WfStmt] using hwf
+      obtain ⟨c, r, hkwe, _⟩ := hkw.start
+      subst hkwe
+      have hp := printStmt_append fmt l (.mk (c :: r) arg flags kids) []
+      rw [List.append_nil] at hp
+      have hlen := afterKw_length_ge fmt l (c :: r) arg flags kids
+      have hih := ih fmt (incLevel l) hwk
+      have hn1 : needL ([] : List Stmt) = 1 := rfl
+      rw [hp]
+      simp only [List.length_append, kwOf, need, List.length_cons]
+      cases hk : kids.isEmpty with
+      | true =>
+        have : kids = [] := by cases kids with
+          | nil => rfl
+          | cons _ _ => simp at hk
+        subst this
+        simp only [hk, if_true] at hlen
+        omega
+      | false =>
+        simp only [hk, Bool.false_eq_true, if_false] at hlen
+        omega)
+    (fun fmt l _ => by simp [needL, printStmts])
+    (fun s ss ihs ihss fmt l hwf => by
+      obtain ⟨hws, hwss⟩ : WfStmt s ∧ WfStmts ss := by simpa [WfStmts] using hwf
+      have h1 := ihs fmt l hws
+      have h2 := ihss fmt l hwss
+      simp only [needL, printStmts, List.length_append]
+      omega)
+    s
+
+theorem needL_le (ss : List Stmt) (fmt : Bool) (l : Nat) (hwf : WfStmts ss) : needL ss ≤ (printStmts fmt l ss).length + 1 :=
+  Stmt.rec_1 (motive_1 := fun s => ∀ (fmt : Bool) (l : Nat), WfStmt s → need s + 1 ≤ (printStmt fmt l s).length)
+    (motive_2 := fun ss => ∀ (fmt : Bool) (l : Nat), WfStmts ss → needL ss ≤ (printStmts fmt l ss).length + 1)
+    (fun kw arg flags kids _ fmt l hwf => need_le_aux (.mk kw arg flags kids) fmt l hwf)
+    (fun fmt l _ => by simp [needL, printStmts])
+    (fun s ss ihs ihss fmt l hwf => by
+      obtain ⟨hws, hwss⟩ : WfStmt s ∧ WfStmts ss := by simpa [WfStmts] using hwf
+      have h1 := ihs fmt l hws
+      have h2 := ihss fmt l hwss
+      simp only [needL, printStmts, List.length_append]
+      omega)
+    ss fmt l hwf
+
+end LyModel.YangStr
